@@ -257,7 +257,7 @@ def render_ini(ctx, target_spelling=None, bad=None):
 
     def IP(fn, flavour="analytic"):
         if bad is not None and fnkey(fn) == fnkey(bad[0]):
-            return ini_poly(probe(fn), flavour, lim=bad[1], form={"py": "pfbad", "native": "pfbadn", "nativelog": "pfbadl", "nested": "pfbadm"}[bad[2] if len(bad) > 2 else "py"])
+            return ini_poly(probe(fn), flavour, lim=bad[1], form={"py": "pfbad", "native": "pfbadn", "nativelog": "pfbadl", "nested": "pfbadm", "pole": "pfbadp"}[bad[2] if len(bad) > 2 else "py"])
         return head + ini_poly(probe(fn), flavour)
     tgt = target_spelling or m["tgt"]
     L = ctx.L
@@ -274,6 +274,8 @@ def render_ini(ctx, target_spelling=None, bad=None):
                 "pfbad(r, a, b, c, lim) = a + b*r + c*r^2 + (pymath.sqrt(lim - r) - pymath.sqrt(lim - r))",
                 "pfbadn(r, a, b, c, lim) = a + b*r + c*r^2 + (sqrt(lim - r) - sqrt(lim - r))",
                 "pfbadl(r, a, b, c, lim) = a + b*r + c*r^2 + (log(lim - r) - log(lim - r))",
+                # a pole: the expression library's division by zero is an infinite value, not an exception
+                "pfbadp(r, a, b, c, lim) = a + b*r + c*r^2 + if(r > lim, 1/(r - r), 0)",
                 # the failing form is called from another form, inside a construct that would absorb a not-a-number (max / min)
                 "pfinner(r, lim) = sqrt(lim - r) - sqrt(lim - r)",
                 "pfbadm(r, a, b, c, lim) = a + b*r + c*r^2 + min(0, max(0, pfinner(r, lim)))", ""]
@@ -1345,12 +1347,13 @@ def _fault_one(idx):
                 for route in ("ini", "cli"):
                     if route not in ROUTES[tgt]:
                         continue
-                    how = ["py", "native", "nested", "nativelog", "py", "nested"][(idx + i + (route == "cli")) % 6]
+                    how = ["py", "native", "nested", "nativelog", "pole", "nested", "py"][(idx + i + (route == "cli")) % 7]
                     res = execute(ctx, route, bad=(fn, lim, how), preexisting="OLD TABLE\n" if route == "cli" else None)
                     out["runs"] += 1
                     out["ks"] += 1
                     where = "%s at grid index %d, %s" % (fnkey(fn), i, {"py": "pymath.sqrt of a negative number", "native": "sqrt of a negative number",
-                                                                        "nativelog": "log of a negative number", "nested": "sqrt of a negative number in a form called inside max() of another form"}[how])
+                                                                        "nativelog": "log of a negative number", "nested": "sqrt of a negative number in a form called inside max() of another form",
+                                                                        "pole": "division by zero (an infinite value)"}[how])
                     if res["outcome"] != "raised":
                         bad(route, "fault-swallowed", "formula outside its domain (%s) but the run ended normally" % where, dict(ini=res.get("ini")))
                     elif res["data"]:
